@@ -6,6 +6,7 @@
 -/
 import PygModel.Tree
 import PygProofs.Lemmas.TreeLemmas
+import PygProofs.Lemmas.TreeMerge
 
 namespace Pyg.Props.C15
 open Pyg Pyg.Tree Pyg.DA
@@ -41,82 +42,91 @@ theorem update_empty (kvs : List (String × Val)) (ig : List Val) :
     update (.dict kvs) (.dict []) ig = .ok (.dict kvs) := by
   simp [update, items, itemsKVs, itemsToTree, Except.map, pure, Except.pure]
 
-/-- PARTIAL (`items_to_tree(tree_items(t)) == t`): proved for trees of depth one (every value a
-leaf, distinct keys).  Not proved: arbitrary depth (needs: folding the items of a non-empty subtree
-hung on a fresh key appends exactly that subtree).  The general statement is checked by
-correspondence (op `fromitems` against `items`) and by the round-trip law on the implementation. -/
-theorem items_roundtrip_partial (kvs : List (String × Val)) (hn : (kvs.map (·.1)).Nodup)
-    (hl : ∀ kv ∈ kvs, ∀ s, kv.2 ≠ .dict s) :
-    itemsToTree (items (.dict kvs)) [] [] = .ok kvs := by
-  have hi : itemsKVs kvs = kvs.map fun kv => ([kv.1], kv.2) := by
-    induction kvs with
-    | nil => rfl
-    | cons kv kvs ih =>
-      obtain ⟨k, v⟩ := kv
-      simp only [List.map_cons, List.nodup_cons] at hn
-      have hv : ∀ s, v ≠ .dict s := hl (k, v) (by simp)
-      have : items v = [([], v)] := by
-        cases v with
-        | dict s => exact absurd rfl (hv s)
-        | _ => rfl
-      simp only [itemsKVs, this, List.map_cons, List.map_nil, List.singleton_append]
-      rw [ih hn.2 fun kv h => hl kv (by simp [h])]
-  have hp : ((itemsKVs kvs).map (·.1)).Nodup := by
-    rw [hi, List.map_map]
-    have : ((fun (x : Path × Val) => x.1) ∘ fun (kv : String × Val) => ([kv.1], kv.2)) =
-        (fun s => [s]) ∘ (fun kv : String × Val => kv.1) := rfl
-    rw [this, ← List.map_map]
-    exact List.Pairwise.map (fun s => [s]) (fun a b h => by simpa using h) hn
-  have he : (itemsKVs kvs).any (·.1.isEmpty) = false := by
-    rw [hi]; simp [List.any_eq_false]
-  simp only [itemsToTree, items, hp, not_true_eq_false, if_false, he, Bool.false_eq_true]
-  rw [hi, foldl_setKVs_flat, setAll_nil_of_nodup kvs hn]
+/-- `items_to_tree(tree_items(t)) == t` for EVERY tree (a dict) with distinct keys in every branch
+and no empty branch below the root, at any depth — whatever the `ignore` list. -/
+theorem items_roundtrip (kvs : List (String × Val)) (ig : List Val)
+    (hw : wf (.dict kvs) = true) (hn : noEmpty (.dict kvs) = true) :
+    itemsToTree (items (.dict kvs)) [] ig = .ok kvs := by
+  rw [itemsToTree_items ig [] kvs hw hn]
+  simp only [wf, Bool.and_eq_true, decide_eq_true_eq] at hw
+  rw [mergeKVs_fresh ig kvs hw.2 [] (by simpa using hw.1)]
   rfl
 
-/-- PARTIAL (`tree_update` = recursive merge): proved for a one-leaf update `{k: v}` — `u`'s leaf
-overrides unless ignored, everything else of `t` is kept (`update_leaf_other`).  Not proved: the
-general equation `update t u ig = merge ig t u` for `wf` trees and `u` without empty branches, and
-its corollary `tree_update(t, t) == t`; both are checked on every run against the executable
-`merge` (driver op `merge`) by the harness's reference merge and by the idempotence law. -/
-theorem update_is_merge_partial (kvs : List (String × Val)) (k : String) (v : Val) (ig : List Val)
+/-- the tree must be a dict: a bare leaf flattens to the keyless item `(leaf,)`, which
+`items_to_tree` rejects (`ValueError`, as the code) -/
+theorem items_roundtrip_leaf (v : Val) (hv : ∀ s, v ≠ .dict s) (base : List (String × Val)) (ig : List Val) :
+    itemsToTree (items v) base ig = .error Err.value := by
+  simp [items_leaf v hv, itemsToTree, throw, throwThe, MonadExceptOf.throw]
+
+/-- the hypothesis "no empty branch" is needed: an empty branch has no items and is lost -/
+theorem items_roundtrip_empty_branch_false :
+    itemsToTree (items (.dict [("a", .dict [])])) [] [] = .ok [] := by rfl
+
+/-- `tree_update(t, u) ==` the recursive merge (`u`'s leaves override unless ignored, branches on
+both sides are merged, leaf-vs-branch conflicts go to `u`, the rest of `t` is kept), for EVERY dict
+`t` (no hypothesis at all on `t`) and EVERY dict `u` with distinct keys and no empty branch. -/
+theorem update_is_merge (a b : List (String × Val)) (ig : List Val)
+    (hw : wf (.dict b) = true) (hn : noEmpty (.dict b) = true) :
+    update (.dict a) (.dict b) ig = .ok (merge ig (.dict a) (.dict b)) := by
+  simp only [update, itemsToTree_items ig a b hw hn, merge]
+  rfl
+
+/-- what the merge is, key by key (this pins the executable specification `merge` down): a key of
+`u` holds `u`'s value merged into what `t` had there (`mergeAt`: a leaf of `u` overrides unless
+ignored and the key existed; a branch of `u` is merged into `t`'s branch, or replaces `t`'s leaf,
+or is hung as it is on a new key), every other key keeps `t`'s value. -/
+theorem merge_lookup (ig : List Val) (k : String) : ∀ (b a : List (String × Val)),
+    (b.map (·.1)).Nodup →
+    lookup k (mergeKVs ig a b) =
+      match lookup k b with
+      | some v => some (mergeAt ig k a v)
+      | none => lookup k a
+  | [], a, _ => by simp [mergeKVs, lookup]
+  | (k', v) :: b, a, hn => by
+      simp only [List.map_cons, List.nodup_cons] at hn
+      rw [mergeKVs_cons, merge_lookup ig k b _ hn.2]
+      by_cases e : k = k'
+      · subst e
+        simp [lookup, lookup_eq_none k b hn.1, lookup_set]
+      · simp only [lookup, if_neg e]
+        cases lookup k b with
+        | none => simp [lookup_set, e]
+        | some w => simp [mergeAt, lookup_set, e]
+
+theorem mergeAt_leaf (ig : List Val) (k : String) (a : List (String × Val)) (v : Val)
+    (hv : ∀ s, v ≠ .dict s) :
+    mergeAt ig k a v = match lookup k a with
+      | some old => if ig.contains v then old else v
+      | none => v := by
+  simp only [mergeAt]
+  cases lookup k a with
+  | none => exact mergeNew_leaf ig v hv
+  | some old => exact merge_leaf ig old v hv
+
+theorem mergeAt_branch (ig : List Val) (k : String) (a s : List (String × Val)) :
+    mergeAt ig k a (.dict s) = .dict (mergeKVs ig (subOf k a) s) := by
+  simp only [mergeAt, subOf]
+  cases lookup k a with
+  | none => rfl
+  | some old => cases old <;> rfl
+
+/-- `tree_update(t, t) == t` (any ignore list) -/
+theorem update_idem (a : List (String × Val)) (ig : List Val)
+    (hw : wf (.dict a) = true) (hn : noEmpty (.dict a) = true) :
+    update (.dict a) (.dict a) ig = .ok (.dict a) := by
+  rw [update_is_merge a a ig hw hn, merge_self ig _ hw]
+
+/-- the one-leaf case of `update_is_merge` (former `update_is_merge_partial`) -/
+theorem update_one_leaf (kvs : List (String × Val)) (k : String) (v : Val) (ig : List Val)
     (hv : ∀ s, v ≠ .dict s) :
     update (.dict kvs) (.dict [(k, v)]) ig = .ok (merge ig (.dict kvs) (.dict [(k, v)])) := by
-  have : items v = [([], v)] := by
-    cases v with
+  apply update_is_merge
+  · cases v with
     | dict s => exact absurd rfl (hv s)
-    | _ => rfl
-  simp only [update, items, itemsKVs, this, List.map_cons, List.map_nil, List.append_nil,
-    itemsToTree, List.nodup_cons, List.not_mem_nil, not_false_eq_true, List.nodup_nil, and_self,
-    not_true_eq_false, if_false, List.any_cons, List.isEmpty_cons, List.any_nil, Bool.or_self,
-    Bool.false_eq_true, List.foldl_cons, List.foldl_nil, Except.map, pure, Except.pure, merge, mergeKVs]
-  congr 2
-  cases hl : lookup k kvs with
-  | none =>
-    have : mergeNew ig v = v := by
-      cases v with
-      | dict s => exact absurd rfl (hv s)
-      | _ => rfl
-    simp [setKVs, hl, this]
-  | some old =>
-    have hm : merge ig old v = if ig.contains v then old else v := by
-      cases v with
-      | dict s => exact absurd rfl (hv s)
-      | _ => cases old <;> rfl
-    simp only [setKVs, hl, Option.isSome_some, Bool.true_and, hm]
-    -- re-assigning the old value changes nothing
-    have hset : ∀ (l : List (String × Val)), lookup k l = some old → DA.set k old l = l := by
-      intro l
-      induction l with
-      | nil => simp [lookup]
-      | cons x xs ih =>
-        obtain ⟨a, b⟩ := x
-        simp only [lookup, DA.set]
-        by_cases e : k = a
-        · rw [if_pos e, if_pos e]; intro h; cases h; rfl
-        · rw [if_neg e, if_neg e]; intro h; rw [ih h]
-    by_cases hi : ig.contains v = true
-    · rw [if_pos hi, if_pos hi]; exact (hset kvs hl).symm
-    · rw [if_neg hi, if_neg hi]
+    | _ => simp [wf, wfKVs]
+  · cases v with
+    | dict s => exact absurd rfl (hv s)
+    | _ => simp [noEmpty, noEmptyKVs]
 
 /-- the rest of `t` is kept by a one-leaf update -/
 theorem update_leaf_other (kvs : List (String × Val)) (k j : String) (v : Val) (ig : List Val)
@@ -130,6 +140,7 @@ private def t0 : Val := .dict [("a", .dict [("b", i 1), ("z", .dict [("q", i 5)]
 private def u0 : Val := .dict [("a", .dict [("c", i 2), ("z", i 7)]), ("c", .dict [("n", .cell .none)])]
 
 example : wf t0 = true ∧ noEmpty t0 = true := by decide
+example : wf u0 = true ∧ noEmpty u0 = true := by decide
 example : (["a", "z", "q"], i 5) ∈ items t0 := by decide
 example : ((itemsToTree (items t0) [] []).toOption.map Val.dict) = some t0 := by decide
 -- overlapping branches, leaf over branch, branch over leaf; update = merge; update t t = t
